@@ -597,6 +597,59 @@ func cmdCheck(args []string) int {
 		ldata, _ := json.MarshalIndent(all, "", " ")
 		writeFileAtomic(filepath.Join(*verif, "baseline_locals.json"), ldata)
 	}
+	if *writeBaseline && len(res.failed) == 0 && len(res.translateErr) == 0 {
+		e.writeTrustedBaseline(*verif)
+	}
+	// trusted-code watch (see trusted.go): a trusted function this proof used has been edited since the baseline.
+	// Its contract is an assumption the verifier cannot re-establish, so the bounded runs that back it are made
+	// now, in either tier: the conformance tests of the assumed contracts and the property's replay harnesses on
+	// the real code.  A reproduced failing input is a violation; a failed conformance test means the assumption
+	// this property's proof rests on no longer holds for the edited code (reported, without a property-level input).
+	var trustedNotes []string
+	changed := e.trustedChanged(*verif)
+	if *writeBaseline {
+		changed = nil
+	}
+	if len(changed) > 0 {
+		names := strings.Join(changed, ", ")
+		found := false
+		for i := range ps.Conformance {
+			cs := &ps.Conformance[i]
+			c := runReplay(cs, *repo, *verif, "", ps.ID, seed)
+			if !strings.Contains(c.Log, "CONFORMANCE-OK") || strings.Contains(c.Log, "--- FAIL") || strings.Contains(c.Outcome, "harness exit") {
+				name := "assumed-contract:" + cs.Run
+				path := report(name, map[string]interface{}{"property": ps.ID, "obligation": name, "kind": "bounded-conformance",
+					"trusted_functions_changed": changed, "replay_log": c.Log, "replay_outcome": c.Outcome,
+					"note": "a trusted (unverified) function this property's proof uses was edited, and the bounded conformance run of the contract assumed for it now fails on the real code; the proof no longer stands"})
+				violations = append(violations, fmt.Sprintf("VIOLATION property=%s replay=%s no-failing-input-found", ps.ID, path))
+				found = true
+			}
+		}
+		var harnesses []*ReplaySpec
+		if ps.Replay != nil {
+			harnesses = append(harnesses, ps.Replay)
+		}
+		for i := range ps.ReplayMore {
+			harnesses = append(harnesses, &ps.ReplayMore[i])
+		}
+		for _, h := range harnesses {
+			c := runReplay(h, *repo, *verif, "", ps.ID, seed)
+			if c.Reproduced {
+				name := "trusted-code:" + h.Run
+				path := report(name, map[string]interface{}{"property": ps.ID, "obligation": name, "kind": "bounded-replay",
+					"trusted_functions_changed": changed, "counterexample": c.Inputs, "replay_outcome": c.Outcome, "replay_log": c.Log,
+					"note": "a trusted (unverified) function this property's proof uses was edited; the bounded search of the replay harness found an input on the real code that violates the property statement"})
+				violations = append(violations, fmt.Sprintf("VIOLATION property=%s replay=%s", ps.ID, path))
+				found = true
+				break
+			}
+		}
+		if !found {
+			trustedNotes = append(trustedNotes, "trusted function(s) edited since the baseline: "+names+"; the contracts assumed for them were re-checked by bounded runs only (conformance tests and replay harnesses on this tree found nothing) - bounded, not proved")
+			fmt.Println("note: " + trustedNotes[0])
+		}
+		ps.Bounded = append(ps.Bounded, trustedNotes...)
+	}
 	// thorough tier extras (bounded, labelled as such, never counted in obligations/discharged):
 	//  (a) conformance runs of the assumed library contracts this property rests on,
 	//  (b) the property's replay harness on THIS tree (it must find nothing when every obligation holds),
@@ -615,6 +668,9 @@ func cmdCheck(args []string) int {
 					boundedNotes = append(boundedNotes, "bounded conformance run: "+strings.TrimSpace(ln))
 				}
 			}
+			if len(changed) > 0 {
+				continue // already judged above, as a consequence of the edit of trusted code
+			}
 			if okLines == 0 || strings.Contains(c.Log, "--- FAIL") || strings.Contains(c.Outcome, "harness exit") {
 				engineFault = append(engineFault, "conformance run "+cs.Run+" of an assumed contract failed: "+firstLines(c.Log, 6))
 			}
@@ -622,7 +678,13 @@ func cmdCheck(args []string) int {
 		if ps.Replay != nil && len(res.failed) == 0 && len(res.translateErr) == 0 {
 			c := runReplay(ps.Replay, *repo, *verif, "", ps.ID, seed)
 			if c.Reproduced {
-				engineFault = append(engineFault, "every obligation holds but the bounded replay harness reports a failing input: "+firstLines(c.Log, 4))
+				// every obligation holds, yet the bounded search finds an input on the real code that violates the
+				// property statement: the contracts have a hole there.  The input is real, so it is reported.
+				name := "bounded:" + ps.Replay.Run
+				path := report(name, map[string]interface{}{"property": ps.ID, "obligation": name, "kind": "bounded-replay",
+					"counterexample": c.Inputs, "replay_outcome": c.Outcome, "replay_log": c.Log,
+					"note": "every obligation is discharged, but the bounded search of the replay harness found an input on the real code that violates the property statement (a hole in the contracts, or unverified code)"})
+				violations = append(violations, fmt.Sprintf("VIOLATION property=%s replay=%s", ps.ID, path))
 			} else {
 				for _, ln := range strings.Split(c.Log, "\n") {
 					if strings.HasPrefix(strings.TrimSpace(ln), "NOT-REPRODUCED") {
